@@ -354,16 +354,28 @@ def build(abstract, tables):
     b.empty = False
     n = max(len(x) for x in lists)
     n = max(n, int(abstract.get("rows", 0)))
+    # several columns: the ROW is what the reader sees, so every combination of a cell class of one column with a
+    # cell class of another occurs in some row (mixed-radix enumeration of the product, when it is small enough)
+    prod = 1
+    for x in lists:
+        prod *= len(x)
+    cross = len(lists) >= 2 and prod <= 1500
+    strides = []
+    if cross:
+        n, acc = max(n, prod), 1
+        for x in lists:
+            strides.append(acc)
+            acc *= len(x)
     b.nrows = n
     b.data, b.expected, b.flags, b.classes = [], [], [], []
     use_np = abstract.get("np") or [False] * len(lists)
-    for f, cl, asnp in zip(abstract["fields"], lists, use_np):
+    for ci, (f, cl, asnp) in enumerate(zip(abstract["fields"], lists, use_np)):
         t = f["type"]
         fillv = conc.value(t, f["fa"], f["fb"]) if f["fa"] != "absent" else {"string": "", "boolean": False}.get(t)
         col, exp, flg, cls = [], [], [], []
         for j in range(n):
-            c = cl[j % len(cl)]
-            if j >= len(cl) and (t, c["a"]) in GENERIC:
+            c = cl[(j // strides[ci]) % len(cl)] if cross and j < prod else cl[j % len(cl)]
+            if j >= (prod if cross else len(cl)) and (t, c["a"]) in GENERIC:
                 v = conc.fresh(t, fillv)
                 e = v
             else:
@@ -708,6 +720,56 @@ class Minimiser:
             return True
         return False
 
+    def known_matches(self, cand, f):
+        from harness.common import _sig_match, load_findings
+
+        if not hasattr(self, "_known"):
+            self._known = [k for k in load_findings() if k["property"] == "C16" and k.get("status") == "known"]
+        try:
+            nf = len(cand["fields"])
+            sig = self.signature(cand, f, [True] * nf, [True] * nf)
+        except Exception:  # noqa: BLE001
+            return []
+        return [k for k in self._known if _sig_match(k["signature"], sig)]
+
+    def weakly_in(self, k, cur, f):
+        """Is the (larger) case `cur` inside the territory of known finding k?  Like the strict match, except that a
+        cell-class key is satisfied when the column CONTAINS a cell of that class (the larger case has many cells per
+        column, the listed finding names the one that matters).  Keys are position-suffixed for several fields and
+        bare for one field, so a finding about single-column files never covers a case with several columns."""
+        try:
+            nf = len(cur["fields"])
+            sig = self.signature(cur, f, [True] * nf, [True] * nf)
+        except Exception:  # noqa: BLE001
+            return False
+        for key, want in k["signature"].items():
+            wants = want if isinstance(want, list) else [want]
+            if key.startswith("cell_class"):
+                sfx = key[len("cell_class"):]
+                if (len(cur["fields"]) > 1) != bool(sfx):
+                    return False
+                i = int(sfx) - 1 if sfx else 0
+                if i >= len(cur["fields"]):
+                    return False
+                cells = cur["cells"][i]
+                if cells is None:
+                    continue               # every table row of the column is present
+                fd = cur["fields"][i]
+                names = {"equals-fill" if self.is_fill_cell(fd, c, cur["missing"]) else sig_name(c) for c in cells}
+                if not any(w in names for w in wants):
+                    return False
+            elif key not in sig or sig[key] not in wants:
+                return False
+        return True
+
+    def reduction_stays_in_territory(self, cur, cand, f):
+        """A smaller failing case that matches a listed known finding may only be adopted when the case it was
+        reduced FROM already lay in that finding's territory; otherwise a NEW failure of the larger case would be
+        filed under an old finding that merely happens to share its smallest witness."""
+        self.known_matches(cand, f)            # loads the list
+        ks = [k for k in self._known if self.weakly_in(k, cand, f)]
+        return not ks or any(self.weakly_in(k, cur, f) for k in ks)
+
     def minimise(self, abstract, failure):
         """-> (signature, minimal abstract case, failure on the minimal case)"""
         st = dict(cur=copy.deepcopy(abstract), target=failure, last=failure)
@@ -729,6 +791,10 @@ class Minimiser:
                 if not fs:
                     continue
                 f = next((x for x in fs if matches(x)), None)
+                if f is not None and not self.reduction_stays_in_territory(st["cur"], cand, f):
+                    # the smaller case fails too, but for a reason that is already a listed finding: adopting it
+                    # would file a NEW failure of the larger case under the old finding
+                    continue
                 if f is not None:
                     st["cur"], st["last"] = cand, f
                     return True
